@@ -1,7 +1,7 @@
 (** C07 - removing a row or column yields it in order and closes the gap.
     Rows: full statement.  Columns: see C07_remove_col_* (DrainCol). *)
 From Coq Require Import Permutation.
-From TD Require Import Base.Prelude Spec.Grid Spec.Inv Model.Owned Proofs.RemoveRow.
+From TD Require Import Base.Prelude Spec.Grid Spec.Inv Model.Owned Proofs.RemoveRow Proofs.RemoveCol.
 
 (** remove_row / pop_row with the drain consumed to any extent, from either end, with any
     interleaving of len(): the observations are those of the ideal run over the row, and
@@ -36,6 +36,40 @@ Theorem C07_drain_conserves :
   let '(obs, yielded, rem) := run_vec_drain steps row in Permutation (yielded ++ rem) row.
 Proof. exact @run_vec_drain_conserves. Qed.
 Print Assumptions C07_drain_conserves.
+
+(** remove_col / pop_col with the DrainCol consumed to any extent from either end (any
+    interleaving of next / next_back / len) and then dropped: the caller observed the ideal
+    run over the column's elements top to bottom, the destructor dropped the unyielded ones,
+    and the array is the original without that column - cell (c, r) of the (C-1)-wide result
+    is the old (c, r) for c < idx and the old (c+1, r) otherwise; (0,0) when it was the only
+    column.  Every block copy of the compaction stays inside the buffer and never moves a
+    moved-out slot (the model returns Ok, not UB): the 0.6.0 heap overflow cannot recur *)
+Theorem C07_remove_col :
+  forall (A : Type) (t : toodee A) idx steps,
+  Inv t -> idx < num_cols t -> (N.of_nat (length (data t)) < W)%N ->
+  let nc := num_cols t in let nr := num_rows t in
+  let colv := vals (data t) (col_cells nc nr idx) in
+  exists d,
+    remove_col t (N.of_nat idx) steps DropIt
+    = Ok (mkDrain (if 0 <? nc - 1 then mkTD d nr (nc - 1) else mkTD d 0 0) true
+            (fst (fst (run_vec_drain steps colv))) (snd (fst (run_vec_drain steps colv)))
+            (snd (run_vec_drain steps colv)) []) /\
+    length d = (nc - 1) * nr /\
+    (forall r c, r < nr -> c < nc - 1 -> nth_error d (r * (nc - 1) + c) = gv (data t) nc idx r c).
+Proof. exact @remove_col_dropped. Qed.
+Print Assumptions C07_remove_col.
+
+Theorem C07_remove_col_out_of_range :
+  forall (A : Type) (t : toodee A) (index : N) steps fin,
+  (N.of_nat (num_cols t) <= index)%N -> remove_col t index steps fin = Ok (mkDrain t false [] [] [] []).
+Proof. exact @remove_col_reject. Qed.
+Print Assumptions C07_remove_col_out_of_range.
+
+Example C07_example_col :
+  remove_col (mkTD [1; 2; 3; 4; 5; 6] 2 3) 1 [DBack; DLen; DFront; DFront] DropIt
+  = Ok (mkDrain (mkTD [1; 3; 4; 6] 2 2) true
+          [ObsItem (Some 5); ObsLen 1; ObsItem (Some 2); ObsItem None] [5; 2] [] []).
+Proof. vm_compute. reflexivity. Qed.
 
 Example C07_example :
   remove_row (mkTD [1; 2; 3; 4; 5; 6] 3 2) 1 [DBack; DLen; DFront; DFront] DropIt
